@@ -2,7 +2,7 @@
    PARTIAL: proved are (e) validation never drops a diagnostic and (d') a fatal parse error always leaves an Error and
    no tree.  "Exactly when well-formed" needs a grammar-level model of the parser; the check compares the implementation
    with the table-driven model (exact) and with documents whose (mal)formedness is known by construction. *)
-From AidlV Require Import Spec.Master Proofs.Master Proofs.Totality Model.LrDriver Proofs.Keywords.
+From AidlV Require Import Spec.Master Proofs.Master Proofs.Totality Model.LrDriver Proofs.Typing Proofs.Keywords Proofs.DriverSafe.
 
 Theorem C03_kept : forall defined a ds0 a' ds d,
   validate_file defined a ds0 = Ok (a', ds) -> In d ds0 -> In d ds.
@@ -34,11 +34,38 @@ Theorem C03_token_not_later_word : forall tbl fuel s off a i text stop rest w,
 Proof. exact token_not_later_word. Qed.
 Print Assumptions C03_token_not_later_word.
 
+(* (f), for whole trees: whatever the source text, no user-chosen identifier stored in the tree that add_content keeps --
+   package and import segments, the item's name, member, argument and enum-element names, annotation-parameter names,
+   segments of user type names at any depth -- is one of those words (aidl_ok, Proofs/Words.v).  Proved by refining the
+   types of the parser's stack values (IDENT tokens, dotted names) and re-running the action-table analysis on them. *)
+Theorem C03_names_never_keywords : forall cx, length (cx_lc cx) = S (length (cx_src cx)) ->
+  forall id fr a, add_content cx id = Added fr -> fr_ast fr = Some a -> aidl_ok a.
+Proof. exact add_content_names. Qed.
+Print Assumptions C03_names_never_keywords.
+
+(* the predicate discriminates: `inout` is refused, `inouts` is fine *)
+Example C03_ex_ident_ok : ~ ident_ok (lit "inout") /\ ident_ok (lit "inouts").
+Proof.
+  split.
+  - intros H. apply H. unfold named_words. apply in_map. cbn. tauto.
+  - intros H. unfold named_words in H. apply in_map_iff in H as [w [E Hw]].
+    cbn in Hw. repeat (destruct Hw as [<-|Hw]; [vm_compute in E; discriminate E|]). exact Hw.
+Qed.
+
 (* non-vacuity: IDENT tokens exist, and the keyword next to one is classified differently *)
 Example C03_ex_ident : exists a stop rest, lex1 (lit "  interfaces x") 0 = LTok a (N.of_nat ident_lex_idx) (lit "interfaces") stop rest.
 Proof. vm_compute. do 3 eexists. reflexivity. Qed.
 Example C03_ex_keyword : exists a idx stop rest, lex1 (lit "  interface x") 0 = LTok a idx (lit "interface") stop rest /\ idx <> N.of_nat ident_lex_idx.
 Proof. vm_compute. do 4 eexists. split; [reflexivity|discriminate]. Qed.
 
+(* (d): failure is never silent.  Whatever the text, a stored result without a tree carries at least one Error: either the
+   parse failed outright (C03_fatal_is_loud_partial), or the item-level recovery action returned None -- and the typing of the
+   parser's stack carries a level, "an Error has been pushed", below which that None cannot exist (TLoud, Proofs/Typing.v) *)
+Theorem C03_no_silent_failure : forall cx, length (cx_lc cx) = S (length (cx_src cx)) ->
+  forall id fr, add_content cx id = Added fr -> fr_ast fr = None -> exists d, In d (fr_diags fr) /\ d_kind d = DError.
+Proof. exact add_content_loud. Qed.
+Print Assumptions C03_no_silent_failure.
+
+(* the full statement of (d), kept visible: the theorem above is it, for the line/column tables the harness supplies *)
 Definition C03_full : Prop :=
   forall cx id fr, add_content cx id = Added fr -> fr_ast fr = None -> exists d, In d (fr_diags fr) /\ d_kind d = DError.
